@@ -75,7 +75,7 @@ def sh(cmd, cwd=None, env=None, timeout=None, input=None):
 
 
 SHARDABLE = {"strip", "fmt", "docr", "sym", "oracle", "obscmp", "oraclefor", "charw", "full", "conv", "range", "tree", "doc", "attrs",
-             "render", "cmtlines"}
+             "render", "cmtlines", "sigdoc", "sig"}
 
 
 def pipe(binary_args, lines, timeout=600, env=None):
